@@ -581,4 +581,38 @@ example : phaseInputReads
       ⟨"S_phase_0_block_9", 2, 4, [(20, some 1, 20), (50, some 1, 0)]⟩, ⟨"S_phase_1_block_9", 2, 4, [(20, some 0, 20), (50, some 0, 0)]⟩],
      [1, 2, 3]) := by decide
 
+/-! ### the chromosome loop has no memory (round 8) -/
+
+/-- **write_file_chromosome_local**.  What the chromosome loop writes for a chromosome does not depend on the chromosomes
+    written before or after it — in particular not on their positions: the output for `pre ++ g :: post` is the output for
+    `pre`, the output for `g` written alone, and the output for `post`.  (Together with `read_written_file` /
+    `rephase_file_no_stale_phase`: a record that is the first to be phased on its chromosome gets its new phase even when
+    its POS is the POS of the record phased last on the chromosome before.) -/
+theorem write_file_chromosome_local (pre post : List (String × Cfg × List Record)) (g : String × Cfg × List Record) :
+    writeFile (pre ++ g :: post) = writeFile pre ++ writeFile [g] ++ writeFile post := by
+  simp [writeFile]
+
+/-- two chromosomes with the same three positions, sample A phased as one set on each; the last phased POS of the first
+    (300) is the first phased POS of the second when that one starts at 300 -/
+def exChainCfg (p0 p1 p2 : Nat) : Cfg :=
+  ⟨.PS, true, false, false, ["A"], [⟨"A", [(p0, 0), (p1, 1), (p2, 0)], [(p0, 1), (p1, 0), (p2, 1)], [(p0, p0), (p1, p0), (p2, p0)]⟩]⟩
+def exChainRecs (p0 p1 p2 : Nat) : List Record :=
+  [p0, p1, p2].map fun p => ⟨"v", p, "A", ["C"], ["GT"], [("A", ⟨some [some 0, some 1], false, []⟩)]⟩
+def exChainGroups : List (String × Cfg × List Record) :=
+  [("chrA", exChainCfg 100 200 300, exChainRecs 100 200 300), ("chrB", exChainCfg 300 400 500, exChainRecs 300 400 500)]
+
+/-- non-vacuity of `write_file_chromosome_local` on the coinciding positions: every record of both chromosomes is phased -/
+example : (writeFile exChainGroups).map (fun g => g.2.map fun r => (r.pos, (r.calls.head?).map (fun nc => (nc.2.phased, nc.2.get "PS")))) =
+    [[(100, some (true, .int 101)), (200, some (true, .int 101)), (300, some (true, .int 101))],
+     [(300, some (true, .int 301)), (400, some (true, .int 301)), (500, some (true, .int 301))]] := by decide
+
+/-- **carried_prev_pos_witness**.  Why `prev_pos` must not outlive one `write` call: with the state carried over
+    (`writeFileCarry`) the first record of `chrB` (POS 300 = POS of the last phased record of `chrA`) is skipped as a
+    duplicate — it stays unphased while the rest of its phase set is written with the id 301 that names it. -/
+theorem carried_prev_pos_witness :
+    (writeFileCarry none exChainGroups).map (fun g => g.2.map fun r => (r.pos, (r.calls.head?).map (fun nc => (nc.2.phased, nc.2.get "PS")))) =
+    [[(100, some (true, .int 101)), (200, some (true, .int 101)), (300, some (true, .int 101))],
+     [(300, some (false, .missing)), (400, some (true, .int 301)), (500, some (true, .int 301))]] ∧
+    writeFileCarry none exChainGroups ≠ writeFile exChainGroups := by decide
+
 end WhVerif.Props.C09
